@@ -14,19 +14,22 @@ from gv import core
 ID = "C19"
 LEVEL = "exploration"
 RULE = ("expression programs: grammar-generated (member chains over public / private / dunder names, calls, indexing, list/tuple "
-        "literals, every operator, every whitelisted builtin, every Python builtin name as a bare identifier, format-style string "
+        "literals, every operator, non-ASCII spellings of member names (compatibility forms of '_' and of letters, ignorable code "
+        "points, case variants), every whitelisted builtin, every Python builtin name as a bare identifier, format-style string "
         "literals that name private fields) and mutations of the test-suite's expressions, evaluated over environments as "
         "MatchIf/MatchUnless build them (tripwired sentinels standing for nodes, and plain containers holding sentinels); "
         "non-trivial = the program parses and mentions an underscore name or a non-whitelisted builtin; distinct = distinct program")
 ASSUMPTIONS = ["evaluation exceptions are expected and ignored: only attribute reads and name resolutions are judged",
                "implicit special-method use by the interpreter (len(), iteration, operators) bypasses attribute lookup and is not a 'read'",
-               "a logged read is judged only when the attribute name occurs in the program text (user-directed read); the interpreter's own "
+               "a logged read is judged when the attribute name occurs in the program text or in a Unicode-normalised / case-folded / "
+               "ignorable-stripped form of it, or is one of the sentinel's own secret names (user-directed read); the interpreter's own "
                "probing of __origin__/__qualname__/... (GenericAlias repr) is counted, not judged",
                "documented whitelist = the list in the module docstring of graphtage/expressions.py, copied into this check"]
 MINIMUMS = {"quick": {"programs_evaluated": 40000, "programs_with_underscore_names": 20000, "identifiers_resolved": 30000,
-                      "tripwire_armed_member_access": 8000, "format_calls_with_private_fields": 300},
+                      "tripwire_armed_member_access": 8000, "format_calls_with_private_fields": 300,
+                      "programs_with_non_ascii_spellings_of_names": 3000},
             "thorough": {"programs_evaluated": 700000, "programs_with_underscore_names": 250000, "identifiers_resolved": 700000,
-                         "tripwire_armed_member_access": 150000}}
+                         "tripwire_armed_member_access": 150000, "programs_with_non_ascii_spellings_of_names": 50000}}
 
 WHITELIST = ["abs", "all", "any", "ascii", "bin", "bool", "bytearray", "bytes", "chr", "complex", "dict", "enumerate", "filter",
              "float", "frozenset", "hash", "hex", "id", "int", "iter", "len", "list", "map", "max", "min", "oct", "ord", "round",
@@ -36,6 +39,45 @@ PRIVATE = ["_secret", "__mangled", "_Sentinel__mangled", "__class__", "__dict__"
            "__self__", "__func__", "__builtins__", "__import__", "__code__"]
 PUBLIC = ["pub", "child", "meth", "name", "items", "keys", "values", "format", "format_map", "upper", "join", "count", "real",
           "imag", "mro", "get", "append", "copy", "index", "startswith", "encode", "bit_length", "denominator", "value", "key"]
+
+# spellings that are not the ASCII name but may be folded into it by an implementation (compatibility forms of "_" and of letters,
+# ignorable code points, combining marks): a guard that inspects one spelling and a lookup that uses another is the hazard
+UNDERSCORE_LOOKALIKES = ["\uff3f", "\ufe33", "\ufe34", "\ufe4d", "\ufe4e", "\ufe4f"]
+IGNORABLES = ["\u200b", "\u200c", "\u200d", "\ufeff", "\u00ad", "\u2060"]
+NEVER_PROBED_BY_INTERPRETER = {"_secret", "_Sentinel__mangled", "__mangled", "_x"}
+
+
+def respell(r, name):
+    """A non-ASCII spelling of `name` that some normalisation (NFKC/NFKD, casefold, ignorable stripping) maps back to it."""
+    y = r.random()
+    if y < 0.35 and name.startswith("_"):
+        return r.choice(UNDERSCORE_LOOKALIKES) + name[1:]
+    if y < 0.5 and "_" in name:
+        return "".join(r.choice(UNDERSCORE_LOOKALIKES) if c == "_" else c for c in name)
+    if y < 0.65:
+        return r.choice(IGNORABLES) + name
+    if y < 0.75 and len(name) > 1:
+        return name[0] + r.choice(IGNORABLES) + name[1:]
+    if y < 0.9:
+        i = r.randrange(len(name))
+        c = name[i]
+        if "a" <= c <= "z" or "A" <= c <= "Z":
+            return name[:i] + chr(ord(c) - 0x20 + 0xff00) + name[i + 1:]     # fullwidth letter
+        return name[:i] + (r.choice(UNDERSCORE_LOOKALIKES) if c == "_" else c) + name[i + 1:]
+    return name.upper() if r.random() < 0.5 else name.swapcase()
+
+
+def folded(prog):
+    import unicodedata
+    out = {prog}
+    for form in ("NFKC", "NFKD", "NFC", "NFD"):
+        out.add(unicodedata.normalize(form, prog))
+    stripped = "".join(c for c in prog if c not in IGNORABLES)
+    out.add(stripped)
+    out.add(unicodedata.normalize("NFKC", stripped))
+    out |= {x.casefold() for x in list(out)} | {x.lower() for x in list(out)}
+    return out
+
 
 LOG = []
 ARMED = [False]
@@ -174,6 +216,8 @@ def expr(r, names, depth=0):
         n = r.randint(1, 3)
         def member():
             name = r.choice(PRIVATE) if r.random() < 0.45 else r.choice(PUBLIC)
+            if r.random() < 0.12:
+                name = respell(r, name)
             y = r.random()
             # spellings of the right operand of '.': bare, spaced, parenthesised (redundant parentheses are dropped by the
             # RPN conversion, so the evaluator sees the same member access)
@@ -207,7 +251,7 @@ def mutate_text(r, s):
     ops = r.randint(1, 3)
     for _ in range(ops):
         i = r.randint(0, len(s))
-        ins = r.choice(["." + r.choice(PRIVATE), "." + r.choice(PUBLIC), "(" + r.choice(["s", "from", "to", ""]) + ")", "[0]",
+        ins = r.choice(["." + r.choice(PRIVATE), "." + r.choice(PUBLIC), "." + respell(r, r.choice(PRIVATE)), "(" + r.choice(["s", "from", "to", ""]) + ")", "[0]",
                         r.choice(FMT_STRINGS) + ".format(s)", " and ", "_", "__", ".format", r.choice(OTHER_BUILTINS)])
         s = s[:i] + ins + s[i:]
     return s
@@ -296,8 +340,9 @@ def check(case, ctx):
     finally:
         ARMED[0] = False
     judged = 0
+    spellings = folded(prog) if not prog.isascii() else (prog,)
     for where, name, frame in LOG:
-        if name not in prog:
+        if not any(name in p or name.casefold() in p for p in spellings) and name not in NEVER_PROBED_BY_INTERPRETER:
             # the interpreter's own introspection (e.g. types.GenericAlias.__repr__ probing __origin__ / __qualname__ of its
             # arguments for `tuple[x]`): the name is not chosen by the program, nothing the program asked for is read
             if ctx is not None:
@@ -314,6 +359,8 @@ def check(case, ctx):
         under = "._" in prog or "{0._" in prog or "{k._" in prog or ".(_" in prog or ". _" in prog
         if under:
             ctx.count("programs_with_underscore_names")
+        if not prog.isascii():
+            ctx.count("programs_with_non_ascii_spellings_of_names")
         if ".format" in prog and ("{0._" in prog or "{k._" in prog or "{0.__" in prog):
             ctx.count("format_calls_with_private_fields")
         if "._" in prog and outcome == "ParseError":
